@@ -21,6 +21,8 @@ ASSUMPTIONS = ['R5: ties in (grade, message length) may resolve to any such alte
                'single-alternative graders (real code) define what the input earns against one alternative']
 
 CREDITS = [0, 0.3, 0.5, 0.7, 1, 1]
+# credits that differ by less than any display precision, and credits too small to display: still compared exactly
+FINE_CREDITS = [1 / 3., 0.33, 0.334, 0.45, 0.454, 0.004, 0.001, 1e-6, 0.995, 0.999, 0.7, 0.704, 0.696, 0, 1]
 MSGS = ['', '', 'm', 'longer message', 'the longest message of them all', 'mm', 'with {braces} {0} and 100%', u'unic\u00f6de \u2717 "q"']
 
 
@@ -100,12 +102,13 @@ def split_singles(alts):
 def make_alts(rng, pool):
     k = rng.choice([1, 2, 2, 3, 3, 4, 4, 5, 6])
     alts = []
+    credits = FINE_CREDITS if rng.random() < 0.2 else CREDITS
     for _ in range(k):
         if rng.random() < 0.2 and not isinstance(pool[0], list):
             e = tuple(rng.sample(pool, 2))
         else:
             e = rng.choice(pool)
-        alts.append({'expect': e, 'grade_decimal': rng.choice(CREDITS), 'msg': rng.choice(MSGS)})
+        alts.append({'expect': e, 'grade_decimal': rng.choice(credits), 'msg': rng.choice(MSGS)})
         if rng.random() < 0.12:
             # an author's explicit ok label (possibly at odds with the credit): credit and messages are decided by the credit alone
             alts[-1]['ok'] = rng.choice([True, False, 'partial'])
